@@ -10,6 +10,7 @@ every single short read (deviation bound 1; 2 in thorough for small bodies).
 from __future__ import annotations
 
 import collections
+import copy
 import itertools
 import re
 
@@ -165,6 +166,12 @@ def bodies(tier):
         yield ("Dpad", SHORT, (fld(b"a", p), fld(b"b", b"w")), dict(pad=b" \t"))
         yield ("Dnonl", SHORT, (fld(b"a", p),), dict(first_nl=False))
         yield ("Dcont", SHORT, (fil(b"a", p, b"text/plain; charset=utf-8"),), dict(cont=True))
+    # Dlong: preamble / epilogue much longer than a header block (a stale search offset left behind by the
+    # preamble search would then lie beyond the first part's blank line), short and long boundary
+    for bnd in (SHORT, LONG):
+        for pre in (b"p" * 70, b"line one\r\n" + b"q" * 90 + b"\r\n--" + bnd[:-1] + b"\r\nmore"):
+            yield ("Dlong", bnd, (fld(b"a", b"v1\r\n\r\nv2"), fil(b"f", b"z")), dict(pre=pre))
+            yield ("Dlong", bnd, (fld(b"a", None),), dict(pre=pre, epi=b"e" * 40))
     # E: long boundary
     for p in payload_space(LONG, b"\r\n", 2 if T else 1):
         yield ("E1", LONG, (fld(b"a", p),), {})
@@ -185,8 +192,8 @@ def bodies(tier):
 
 def parser_level_selected(descr: str, idx: int, tier: str) -> bool:
     if tier == "thorough":
-        return descr in ("A0", "A1f", "A1F", "C1", "Dpad", "Dcont", "E1", "F3", "B2", "Gu", "Gl") and (descr != "A1f" or idx % 8 == 0) and (descr != "B2" or idx % 8 == 0)
-    return descr in ("A0", "A1F", "C1", "Dpad", "Dcont", "Gu", "Gl") or (descr == "F3" and idx % 3 == 0)
+        return descr in ("A0", "A1f", "A1F", "C1", "Dpad", "Dcont", "Dlong", "E1", "F3", "B2", "Gu", "Gl") and (descr != "A1f" or idx % 8 == 0) and (descr != "B2" or idx % 8 == 0)
+    return descr in ("A0", "A1F", "C1", "Dpad", "Dcont", "Dlong", "Gu", "Gl") or (descr == "F3" and idx % 3 == 0)
 
 
 BATCH = 2
@@ -200,9 +207,15 @@ def units(tier):
 # ------------------------------------------------------------------ decoder-level graph (E3)
 
 def clone(d):
+    """Attribute-level clone that does not depend on the attribute set: every mutable container is copied,
+    so a refactoring that adds a field neither aliases state between clones nor breaks the harness."""
     n = mp.MultipartDecoder.__new__(mp.MultipartDecoder)
-    n.__dict__.update(d.__dict__)
-    n.buffer = bytearray(d.buffer)
+    for k, v in d.__dict__.items():
+        if isinstance(v, bytearray):
+            v = bytearray(v)
+        elif isinstance(v, (list, dict, set)):
+            v = copy.deepcopy(v)
+        n.__dict__[k] = v
     return n
 
 
@@ -263,16 +276,32 @@ def normalise(out):
     return tuple(tuple(p) for p in parts), tuple(tail)
 
 
+_CONST_ATTRS = ("boundary", "preamble_re", "boundary_re", "max_form_memory_size", "max_parts")
+
+
 def state_key(d, off, out):
-    return (off, d.state, bytes(d.buffer), d._search_position, d._parts_decoded, d.complete, out)
+    """Every attribute any method can read is part of the key (generic over vars(d)): merging two histories
+    is only sound if all of them are equal.  Constants of the run (boundary, compiled regexes, limits) are skipped."""
+    dyn = []
+    for k in sorted(d.__dict__):
+        if k in _CONST_ATTRS:
+            continue
+        v = d.__dict__[k]
+        if isinstance(v, bytearray):
+            v = bytes(v)
+        elif isinstance(v, (list, dict, set)):
+            v = repr(v)
+        dyn.append((k, v))
+    return (off, tuple(dyn), out)
 
 
 def explore_body(body: bytes, boundary: bytes):
     """BFS over the arrival-schedule graph. Returns (states, transitions, {terminal: schedule})."""
     n = len(body)
     d0 = mp.MultipartDecoder(boundary)
-    if set(vars(d0)) != DECODER_ATTRS:
-        raise core.Broken(f"MultipartDecoder attributes changed: {sorted(set(vars(d0)) ^ DECODER_ATTRS)}")
+    missing = {"buffer", "state", "complete"} - set(vars(d0))
+    if missing:
+        raise core.Broken(f"MultipartDecoder lost attributes the harness reads: {sorted(missing)}")
     seen = {state_key(d0, 0, ())}
     queue = collections.deque([(0, d0, (), ())])
     trans = 0
